@@ -9,7 +9,8 @@ from harness import translate
 open('coq/GenSched.v', 'w').write(translate.translate(os.environ.get('VERIF_REPO', '/repo')))
 open('coq/GenLadder.v', 'w').write(translate.translate_ladder(os.environ.get('VERIF_REPO', '/repo')))
 open('coq/GenHandle.v', 'w').write(translate.translate_handle(os.environ.get('VERIF_REPO', '/repo')))
-open('coq/GenRabbit.v', 'w').write(translate.translate_rabbit(os.environ.get('VERIF_REPO', '/repo')))"
+open('coq/GenRabbit.v', 'w').write(translate.translate_rabbit(os.environ.get('VERIF_REPO', '/repo')))
+open('coq/GenRedisMaint.v', 'w').write(translate.translate_redis_maintenance(os.environ.get('VERIF_REPO', '/repo')))"
 cd coq
 coq_makefile -f _CoqProject -o Makefile
 make clean >/dev/null 2>&1 || true
